@@ -91,7 +91,7 @@ def override_name(eng, st, al):
 def look(eng, st, obj, name):
     """getattr(obj, name) by ordinary lookup: instance slot, else class attribute (absent when neither)"""
     iv = z3.If(is_ref(obj), z3.Select(st.get("idict", a_of(obj)), s_of(name)), ABSENT)
-    return z3.If(is_absent(iv), clsattr(eng.type_of(st, obj), s_of(name)), iv)
+    return z3.If(is_absent(iv), cls_level(eng, st, obj, s_of(name)), iv)
 
 
 class AliasBase(Contract):
